@@ -8,12 +8,16 @@ the summary of a small pure string function - or of the per-element part of a pa
 short strings over the characters that matter (bounded check of the round trip through the two summaries).  Two laws
 need the loops themselves (the scanner of parse_options_header; the item-to-item state of parse_range_header): R6.7 and
 R6.8 evaluate writer and reader as whole functions, statement by statement over constants (`_c06_helpers.Machine`), on
-finite families of values chosen by shape class.
+finite families of values chosen by shape class; R6.10 does the same for the typed single values (HTTP dates, ages,
+If-Range as date or entity tag; datetime values are constants to the Machine).  R6.9 is a discipline over *all* writers of
+the quoted-string grammars: whatever text a template places between literal double quotes must be the escaped form of
+its value (bounded evaluation of that text's term).
 """
 
 from __future__ import annotations
 
 import ast
+import datetime as _dtm
 import re
 import typing as t
 
@@ -55,18 +59,37 @@ LEVEL_TEXT = (
     "and parse_content_range_header(ContentRange(..).to_header()) build an object of the same class with equal "
     "attributes, for closed ranges from byte 0 and from a positive byte (one byte long and longer), open-ended ranges "
     "from 0 and from a positive byte, suffix ranges, several ranges ending closed / open-ended / suffix, and content "
-    "ranges with start/stop and length set or unset (length 0 included). It decides these necessary conditions, not the "
+    "ranges with start/stop and length set or unset (length 0 included); (R6.9) quoting discipline over all writers of "
+    "the quoted-string grammars (quote_header_value, dump_header, dump_options_header, HeaderSet / Cache-Control / "
+    "Authorization / WWW-Authenticate to_header; private helpers inlined, public package functions whose result is part "
+    "of the text followed): wherever a non-constant text stands between literal double quotes of the written template "
+    "(f-string, concatenation, % / format), '\"' + text + '\"' decodes as an RFC 9110 quoted-string to the value the text is "
+    "computed from, on every string up to length 3 over {backslash, quote, letter, ',', ' '} that satisfies the "
+    "conditions the text is written under - a value interpolated raw, or escaped for one of the two characters only, "
+    "fails; the entity-tag writers are exempt (their reader takes the quoted text literally, the domain has no '\"' in "
+    "tags); (R6.10) whole-function laws for typed single values, evaluated by the Machine with CPython's datetime / "
+    "email.utils semantics on constants: parse_date(http_date(d)) is the aware datetime of the same instant and "
+    "parse_if_range_header(IfRange(date=d).to_header()) carries that date and no tag, for naive datetimes on every "
+    "weekday of every month plus years 1000 / 9999 and aware ones at UTC, +05:30, -08:00, +14:00, -12:00; IfRange(tag) "
+    "comes back as that tag and no date for tags beginning like weekday names or the weak marker and for tags whose text "
+    "is an HTTP date; IfRange() stays empty; re-serialising a parsed If-Range text (weak / strong / unquoted tags, dates "
+    "in several spellings) and parsing again gives the same value; parse_age(dump_age(x)) is x whole seconds for int and "
+    "timedelta x. It decides these necessary conditions, not the "
     "round-trip law over all values: R6.7 / R6.8 are decided for the members of their families only (a finite sample of "
     "the domain chosen by shape class, not all strings / integers; non-ASCII text, '*'-suffixed keys and %-encoded "
-    "continuations are not in the families); dates, base64 credentials and cache-control typing are delegated to "
-    "library code and not decided; the item loops of parse_list_header / parse_dict_header are decided per item (R6.2), "
+    "continuations are not in the families; R6.10 likewise for the listed dates, tags and ages - sub-second values, "
+    "offsets that leave the year range and timestamps given as int / float / struct_time are not in them); what "
+    "email.utils / datetime do is trusted, base64 credentials and cache-control typing are delegated to library code and "
+    "not decided; the round trip of Authorization / WWW-Authenticate objects as wholes is not evaluated (their "
+    "parameter container is not modelled) - R6.5 / R6.6 / R6.9 decide their quoting and pairing; the item loops of parse_list_header / parse_dict_header are decided per item (R6.2), "
     "not as whole functions."
 )
 TRUSTED = [
     "CPython ast and re._parser; semantics of builtin str / bytes / frozenset methods and of `re` applied to constants folded from the source",
     "RFC 9110 section 5.6.2 token / 5.6.4 quoted-string tables embedded as constants",
     "urllib.request.parse_http_list keeps the quotes of a quoted item and drops the backslash of an escaped character inside them",
-    "the Machine of _c06_helpers (R6.7 / R6.8): its reading of Python statements and expressions over constants; it never imports the package - functions and classes of werkzeug exist only as syntax trees, instances as attribute records, generator functions as bodies suspended at their yields (resumed strictly in turn with their consumer)",
+    "CPython's datetime arithmetic and email.utils.format_datetime / parsedate_to_datetime applied to constants (R6.10); operations on naive datetimes that depend on the host's time zone are refused, not evaluated",
+    "the Machine of _c06_helpers (R6.7 / R6.8 / R6.10): its reading of Python statements and expressions over constants; it never imports the package - functions and classes of werkzeug exist only as syntax trees, instances as attribute records, generator functions as bodies suspended at their yields (resumed strictly in turn with their consumer)",
 ]
 ASSUMPTIONS = ["keys are tokens free of '*' (as the property states)", "option values do not contain the literal %22"]
 
@@ -190,6 +213,8 @@ def run(ctx: Ctx) -> None:
         "R6.6": "typed header to_header / parser return the result of the paired shared dumper / parser; Basic credentials and the scheme normal form agree",
         "R6.7": "whole-function law on a finite family: parse_options_header(dump_options_header(h, options)) == (h, options) for option values that place every delimiter, escape and parameter look-alike inside the quoted value (the scanner loop - key, value, advance to the next section - is evaluated statement by statement)",
         "R6.8": "whole-function law on a finite family: the text Range.to_header / ContentRange.to_header writes is read back by parse_range_header / parse_content_range_header as an equal object, for every shape class of the value (closed, open-ended from 0 and from a positive byte, suffix, several ranges; start/stop and length set or unset)",
+        "R6.9": "quoting discipline of every writer of the quoted-string grammars (quote_header_value, dump_header, dump_options_header, HeaderSet / Cache-Control / Authorization / WWW-Authenticate to_header, private helpers inlined, public callees followed): a text placed between literal double quotes is the escaped form of the value it is computed from - '\"' + text + '\"' decodes as an RFC 9110 quoted-string to that value on every short string over backslash, quote, letter, comma, space",
+        "R6.10": "whole-function laws on finite families of typed single values: parse_date(http_date(d)) is the aware datetime of the same instant; parse_if_range_header(IfRange(date=d).to_header()) carries that date and no tag - for naive datetimes on every weekday of every month and at the ends of the year range, and aware ones with UTC / positive / negative offsets; IfRange(tag) comes back as that tag and no date (tags that begin like a weekday name or the weak marker, tags that read as a date); the empty If-Range stays empty; re-serialising a parsed If-Range and parsing again is stable; parse_age(dump_age(x)) is the timedelta of x whole seconds",
     }.items():
         ctx.rule(rid, text)
 
@@ -509,9 +534,12 @@ def run(ctx: Ctx) -> None:
     rd = any(_is_call_to(x, "int") and x[2] and x[2][0][0] == "p" for o in PA.returns for x in walk(o.term))
     ctx.ob("R6.6", "age is written and read as a base-10 integer", wr and rd, f"dump_age returns str(int(..))={wr}; parse_age builds on int(value)={rd}", DA.fi, DA.fi.node, "age pairing")
 
+    _quoting_discipline(ctx, repo, sums, conc, S)
+
     machine = H.Machine(repo, folder)
     _options_law(ctx, machine, S, po_alpha, 3 if len(po_alpha) <= 8 else 2)
     _range_law(ctx, machine, S, repo)
+    _typed_value_laws(ctx, machine, S, repo)
 
 
 def run_thorough(ctx: Ctx) -> None:
@@ -626,10 +654,319 @@ def _range_law(ctx: Ctx, m: H.Machine, S: t.Callable[[str], Summary], repo: t.An
     ctx.floor("R6.8", "range values evaluated", n, 40)
 
 
+# R6.10: typed single values - HTTP dates, ages, If-Range (date or entity tag): whole-function laws on finite families
+
+
+def _date_family() -> tuple[list[t.Any], list[t.Any]]:
+    """(naive datetimes covering every weekday in every month plus the ends of the year range, aware datetimes with
+    UTC / positive / negative offsets): second resolution, as the property states"""
+    naive = [_dtm.datetime(2024, mth, 1 + wd + 7 * (mth % 3), (5 * mth + wd) % 24, 59 - wd, 58 - mth) for mth in range(1, 13) for wd in range(7)]
+    naive += [_dtm.datetime(1000, 1, 1, 0, 0, 0), _dtm.datetime(9999, 12, 31, 23, 59, 59), _dtm.datetime(1970, 1, 1, 0, 0, 0), _dtm.datetime(2000, 2, 29, 12, 0, 1)]
+    zones = [_dtm.timezone.utc, _dtm.timezone(_dtm.timedelta(hours=5, minutes=30)), _dtm.timezone(_dtm.timedelta(hours=-8)), _dtm.timezone(_dtm.timedelta(hours=14)), _dtm.timezone(_dtm.timedelta(hours=-12))]
+    aware = [d.replace(tzinfo=z) for d in naive[:21] for z in zones]
+    return naive, aware
+
+
+def _as_utc(d: t.Any) -> t.Any:
+    return d.replace(tzinfo=_dtm.timezone.utc) if d.tzinfo is None else d
+
+
+def _same_instant(got: t.Any, d: t.Any) -> bool:
+    return isinstance(got, _dtm.datetime) and got.tzinfo is not None and got == _as_utc(d)
+
+
+_IF_RANGE_TAGS = ["abc", "a b", "0", "W", "w", "Wed", "Wednesday", "W/", "w/x", "W/abc", "Mon", "GMT", "1994", "a,b", "a/b", "686897696a7c876b7e", "wzsa-1", "\\"]
+_DATE_LIKE_TAGS = ["Thu, 01 Jan 1970 00:00:00 GMT", "Wed, 01 May 2024 23:59:58 GMT", "Sun, 06 Nov 1994 08:49:37 GMT"]
+_IF_RANGE_TEXTS = ['W/"abc"', 'w/"abc"', '"abc"', "abc", ' "abc" ', 'W/"a b"', "Wed, 01 May 2024 23:59:58 GMT", "Wed, 01 May 2024 23:59:58 +0530", "1 May 2024 23:59:58", "Wed, 01 May 2024 23:59:58 -0000", "Wednesday", "W/", '""']
+
+
+def _typed_value_laws(ctx: Ctx, m: H.Machine, S: t.Callable[[str], Summary], repo: t.Any) -> None:
+    R = "R6.10"
+    HD, PD = S("http.http_date").fi, S("http.parse_date").fi
+    PIR = S("http.parse_if_range_header").fi
+    DA, PA = S("http.dump_age").fi, S("http.parse_age").fi
+    ci = repo.cls("datastructures.range.IfRange")
+    _, wf = repo.lookup(ci, "to_header")
+    if not isinstance(wf, FuncInfo):
+        raise AnalysisError("IfRange.to_header not found")
+    ctx.saw(wf)
+    naive, aware = _date_family()
+    n = 0
+
+    def wire_of(thunk: t.Callable[[], t.Any]) -> t.Any:
+        return m.outcome(thunk)
+
+    def attrs(got: t.Any) -> dict[str, t.Any] | None:
+        if isinstance(got, tuple) and len(got) == 3 and got[0] == "<instance>" and got[1] == ci.fq:
+            return dict(got[2])
+        return None
+
+    # -- HTTP dates
+    for label, construct, fam in (("naive datetimes (read as UTC): every weekday in every month, years 1000 and 9999", "date law naive", naive), ("aware datetimes with UTC, positive and negative offsets", "date law aware", aware)):
+        bad = None
+        for d in fam:
+            text = wire_of(lambda: m.run(HD, [d]))
+            got = m.outcome(lambda: m.run(PD, [text])) if isinstance(text, str) else ("<the writer gives no text>",)
+            n += 1
+            if not _same_instant(got, d) and bad is None:
+                bad = f"e.g. http_date({d!r}) writes {text!r}, which parse_date reads as {got!r}"
+        ctx.ob(R, f"HTTP date: {label}", bad is None, f"{len(fam)} values: parse_date(http_date(d)) is the aware datetime of the same instant; {bad or 'all read back'}", HD, HD.node, construct)
+
+    # -- If-Range carrying a date
+    for label, construct, fam in (("naive dates, every weekday in every month", "if-range law naive date", naive), ("aware dates", "if-range law aware date", aware)):
+        bad = None
+        for d in fam:
+            try:
+                obj = m.run(ci, [], {"date": d})
+            except H.ProgramRaise as r:
+                raise AnalysisError(f"IfRange(date=...) raises {r.kind}")
+            text = wire_of(lambda: m.method(obj, "to_header"))
+            got = m.outcome(lambda: m.run(PIR, [text])) if isinstance(text, str) else ("<the writer gives no text>",)
+            a = attrs(got)
+            n += 1
+            if not (a is not None and a.get("etag") is None and _same_instant(a.get("date"), d)) and bad is None:
+                bad = f"e.g. IfRange(date={d!r}).to_header() writes {text!r}, which {PIR.name} reads as {_short(got)}"
+        ctx.ob(R, f"If-Range with a date is read back as that date: {label}", bad is None, f"{len(fam)} values: {PIR.name}(IfRange(date=d).to_header()) has the date of the same instant and no entity tag; {bad or 'all read back'}", wf, wf.node, construct)
+
+    # -- If-Range carrying an entity tag
+    def tag_law(instance: str, construct: str, tags: list[str]) -> None:
+        nonlocal n
+        bad = None
+        for e_ in tags:
+            obj = m.run(ci, [e_])
+            text = wire_of(lambda: m.method(obj, "to_header"))
+            got = m.outcome(lambda: m.run(PIR, [text])) if isinstance(text, str) else ("<the writer gives no text>",)
+            a = attrs(got)
+            n += 1
+            if not (a is not None and a.get("etag") == e_ and a.get("date") is None) and bad is None:
+                bad = f"e.g. IfRange({e_!r}).to_header() writes {text!r}, which {PIR.name} reads as {_short(got)}"
+        ctx.ob(R, instance, bad is None, f"{len(tags)} tags: {PIR.name}(IfRange(tag).to_header()) has that entity tag and no date; {bad or 'all read back'}", wf, wf.node, construct)
+
+    tag_law("If-Range with an entity tag is read back as that tag (tags that begin like a weekday / the weak marker included)", "if-range law etag", _IF_RANGE_TAGS)
+    tag_law("an entity tag whose text is an HTTP date is still read back as an entity tag", "if-range law date-like etag", _DATE_LIKE_TAGS)
+    bad = None
+    for e_ in (None,):
+        obj = m.run(ci, [])
+        text = wire_of(lambda: m.method(obj, "to_header"))
+        got = m.outcome(lambda: m.run(PIR, [text])) if isinstance(text, str) else ("<the writer gives no text>",)
+        a = attrs(got)
+        n += 1
+        if not (a is not None and a.get("etag") is None and a.get("date") is None):
+            bad = f"IfRange().to_header() writes {text!r}, which {PIR.name} reads as {_short(got)}"
+    ctx.ob(R, "the empty If-Range is read back as empty", bad is None, bad or "IfRange() -> '' -> IfRange()", wf, wf.node, "if-range law empty")
+
+    # -- parsing is a normal form
+    bad = None
+    for text in _IF_RANGE_TEXTS:
+        n += 1
+        try:
+            p1 = m.run(PIR, [text])
+        except H.ProgramRaise as r:
+            bad = bad or f"{PIR.name}({text!r}) raises {r.kind}"
+            continue
+        if not isinstance(p1, H.Obj):
+            bad = bad or f"{PIR.name}({text!r}) gives {_short(H.snapshot(p1))}"
+            continue
+        s1 = H.snapshot(p1)
+        text2 = wire_of(lambda: m.method(p1, "to_header"))
+        s2 = m.outcome(lambda: m.run(PIR, [text2])) if isinstance(text2, str) else ("<the writer gives no text>",)
+        if s1 != s2 and bad is None:
+            bad = f"e.g. {text!r} is read as {_short(s1)}, written as {text2!r} and read again as {_short(s2)}"
+    ctx.ob(R, "If-Range: re-serialising a parsed header and parsing again yields the same value", bad is None, f"{len(_IF_RANGE_TEXTS)} header texts (weak / strong / unquoted tags, dates in several spellings); {bad or 'all stable'}", PIR, PIR.node, "if-range normal form")
+
+    # -- ages
+    ages: list[t.Any] = [0, 1, 59, 60, 3600, 86400, 31536000, 2**31, 10**9] + [_dtm.timedelta(0), _dtm.timedelta(seconds=1), _dtm.timedelta(days=2, seconds=3), _dtm.timedelta(hours=1), _dtm.timedelta(days=400)]
+    bad = None
+    for x in ages:
+        text = wire_of(lambda: m.run(DA, [x]))
+        got = m.outcome(lambda: m.run(PA, [text])) if isinstance(text, str) else ("<the writer gives no text>",)
+        want = x if isinstance(x, _dtm.timedelta) else _dtm.timedelta(seconds=x)
+        n += 1
+        if not (isinstance(got, _dtm.timedelta) and got == want) and bad is None:
+            bad = f"e.g. dump_age({x!r}) writes {text!r}, which parse_age reads as {got!r}"
+    ctx.ob(R, "Age: whole seconds as int and as timedelta", bad is None, f"{len(ages)} values: parse_age(dump_age(x)) is the timedelta of x seconds; {bad or 'all read back'}", DA, DA.node, "age law")
+    ctx.floor(R, "typed values evaluated", n, 300)
+
+
 def _short(got: t.Any) -> str:
     if isinstance(got, tuple) and len(got) == 3 and got[0] == "<instance>":
         return f"{got[1].rsplit('.', 1)[-1]}({', '.join(f'{k}={v!r}' for k, v in got[2])})"
     return repr(got)
+
+
+# ---------------------------------------------------------------------------------------------------------------
+# R6.9: quoting discipline of the writers of the quoted-string grammars
+
+# serialisers whose text is read back by parse_list_header / parse_dict_header / parse_options_header, i.e. by a reader
+# that takes `\\` inside double quotes as an escape.  (The entity-tag writers are not among them: their reader takes the
+# text between the quotes literally, and the domain excludes '"' from tags - R6.5.)
+QUOTED_WRITERS = [
+    "http.quote_header_value",
+    "http.dump_header",
+    "http.dump_options_header",
+    "datastructures.structures.HeaderSet.to_header",
+    "datastructures.cache_control._CacheControl.to_header",
+    "datastructures.auth.Authorization.to_header",
+    "datastructures.auth.WWWAuthenticate.to_header",
+]
+_QUOTE_ALPHABET = '\\"a, '
+_LEAF_KINDS = ("p", "attr", "it", "idx", "slice", "v", "alt")
+
+
+def _quoted_sites(summ: Summary) -> list[tuple[Term, tuple, str]]:
+    """(text part, conditions, template) for every non-constant part of a written text that stands between literal
+    double quotes: the constant parts of each concatenation are scanned left to right, a '"' opens / closes."""
+    out: list[tuple[Term, tuple, str]] = []
+    seen: set[tuple] = set()
+
+    def visit(t_: t.Any, conds: tuple) -> None:
+        if isinstance(t_, frozenset):
+            for x in t_:
+                visit(x, conds)
+            return
+        if not isinstance(t_, tuple) or not t_ or is_c(t_):
+            return
+        if not isinstance(t_[0], str):
+            for x in t_:
+                visit(x, conds)
+            return
+        k = (t_, conds)
+        if k in seen:
+            return
+        seen.add(k)
+        items = coll_items(t_)
+        if items is not None:
+            for cs, it_ in sorted(items, key=repr):
+                visit(it_, conds + tuple(cs))
+            return
+        if t_[0] == "cat":
+            inside = False
+            tmpl = "".join(cv(p) if is_cstr(p) else "{}" for p in t_[1])
+            for p in t_[1]:
+                if is_cstr(p):
+                    txt = cv(p)
+                    i = 0
+                    while i < len(txt):
+                        if inside and txt[i] == "\\":
+                            i += 2
+                            continue
+                        if txt[i] == '"':
+                            inside = not inside
+                        i += 1
+                else:
+                    if inside:
+                        out.append((p, conds, tmpl))
+                    visit(p, conds)
+            return
+        for x in t_[1:]:
+            visit(x, conds)
+
+    for o in summ.returns:
+        visit(o.term, tuple(o.conds))
+    return out
+
+
+def _leaves(t_: Term) -> list[Term]:
+    """the values a text part is computed from: maximal sub-terms that are a parameter, attribute, element of an
+    enclosing loop ...  The element of a loop / comprehension that is *part of the text* (``"".join(esc(c) for c in
+    value)``) is not a source: what that loop runs over is."""
+    out: list[Term] = []
+
+    def go(x: t.Any, in_coll: bool) -> None:
+        if isinstance(x, frozenset):
+            for y in x:
+                go(y, in_coll)
+            return
+        if not isinstance(x, tuple) or not x or is_c(x):
+            return
+        if isinstance(x[0], str):
+            items = coll_items(x)
+            if items is not None:
+                for cs, it_ in items:
+                    go(it_, True)
+                    for a, _tr in cs:
+                        go(a, True)
+                return
+            if x[0] == "it" and in_coll:
+                go(x[1], False)
+                return
+            if x[0] in _LEAF_KINDS:
+                if x not in out:
+                    out.append(x)
+                return
+            if x[0] == "g":
+                return
+            if x[0] == "call":
+                for y in x[2]:
+                    go(y, in_coll)
+                for kw in x[3]:
+                    go(kw[2], in_coll)
+                return
+            for y in x[1:]:
+                go(y, in_coll)
+            return
+        for y in x:
+            go(y, in_coll)
+
+    go(t_, False)
+    return out
+
+
+def _quoting_discipline(ctx: Ctx, repo: t.Any, sums: Summaries, conc: Conc, S: t.Callable[[str], Summary]) -> None:
+    R = "R6.9"
+    smp = [""] + H.samples(_QUOTE_ALPHABET, 3)
+    todo = list(QUOTED_WRITERS)
+    roots = set(todo)
+    done: set[str] = set()
+    nsites = 0
+    while todo:
+        fq = todo.pop(0)
+        if fq in done:
+            continue
+        done.add(fq)
+        try:
+            W = S(fq)
+        except AnalysisError:
+            if fq in roots:
+                raise
+            ctx.note(f"R6.9: {fq} (called by a writer) is not summarised; its text is not scanned")
+            continue
+        # public functions of the package whose result is part of the written text are writers too
+        for o in W.returns:
+            for x in walk_deep(o.term):
+                if x[0] == "call" and (_gfq(x[1]) or "").startswith("werkzeug."):
+                    callee = sums.func_by_fq(x[1][1])
+                    if callee is not None and callee.fq not in done and not callee.name.endswith("etag"):
+                        todo.append(callee.fq.removeprefix("werkzeug."))
+        for part, conds, tmpl in _quoted_sites(W):
+            nsites += 1
+            leaves = _leaves(part)
+            where = f"`{tmpl}` in {W.fi.name}"
+            construct = f"quoted text {show(part)[:80]}"
+            if len(leaves) > 1:
+                raise AnalysisError(f"{W.fi.fq}: the text between double quotes in `{tmpl}` is computed from several values ({', '.join(show(x)[:40] for x in leaves)}): not understood")
+            leaf = leaves[0] if leaves else None
+            rel = [(a, tr) for a, tr in conds if leaf is not None and any(x == leaf for x in walk(a))]
+            rows = []
+            for s_ in smp if leaf is not None else [None]:
+                env = {leaf: s_} if leaf is not None else {}
+                try:
+                    if not all(bool(conc.val(a, env)) == tr for a, tr in rel):
+                        continue
+                    r = conc.val(part, env)
+                except Raised as ex:
+                    rows.append((s_, ("<raises>", ex.kind), s_))
+                    continue
+                except H.Unknown as ex:
+                    raise AnalysisError(f"{W.fi.fq}: the text between double quotes in `{tmpl}` ({show(part)[:80]}) is not evaluated: {ex}")
+                if not isinstance(r, str):
+                    r = str(r)
+                dec = H.rfc_unquote_full('"' + r + '"')
+                rows.append((s_, dec if dec is not None else "<" + repr('"' + r + '"') + " is not a quoted-string>", s_ if s_ is not None else dec))
+            ok = all(g == w_ for _, g, w_ in rows)
+            src = show(leaf)[:60] if leaf is not None else "a constant"
+            ctx.ob(R, f"text between double quotes is the escaped form of its value ({where})", ok, f"`{show(part)[:100]}` computed from {src}: '\"' + text + '\"' decoded as an RFC 9110 quoted-string on {len(rows)} strings over {sorted(set(_QUOTE_ALPHABET))}; {_first_bad(rows)}", W.fi, W.fi.node, construct)
+    ctx.floor(R, "texts written between literal double quotes", nsites, 1)
 
 
 # ---------------------------------------------------------------------------------------------------------------
